@@ -3,7 +3,7 @@
    The model (Model/Routing.v) mirrors the code AFTER the three fix: commits of this property
    (length-prefixed merged key in LocalCachedMap and LogProcessCounterSet; S_IFDIR test in ListBufferIDs). *)
 From SV Require Import Model.Common Model.Md5 Model.Routing Spec.RoutingSpec
-  Proofs.MergedKeyProofs Proofs.RoutingProofs Proofs.QueueProofs Proofs.TemplateProofs Proofs.RestartProofs.
+  Proofs.MergedKeyProofs Proofs.RoutingProofs Proofs.QueueProofs Proofs.TagTemplateProofs Proofs.RestartProofs.
 
 (* ---------------------------------------------------------------------------------------------- *)
 (* 1. the lookup key of LocalCachedMap / LogProcessCounterSet                                      *)
